@@ -1,13 +1,17 @@
 """C16 — covariance kernels are valid, self-consistent and correctly differentiated."""
-import os, re, subprocess, sys, json, ast, tempfile
+import os, subprocess, sys, json, tempfile
 from checklib import core
 
 ID = 'C16'
 LEAN_DEPS = ['RvModel.Hand.Kernel', 'RvModel.Lemmas.C16', 'RvModel.Hand.DispatchAll']
 TRUSTED = ['hand model Hand/Kernel.lean of the seven leaf kernels and the Add/Product combinators (tied by exact correspondence on random '
-           'kernel trees of any depth, tools/c16_validate.py)', 'positive semi-definiteness of the rbf/seard/rq/matern leaf families is a hypothesis (LeafPSD)']
+           'kernel trees of any depth, tools/c16_validate.py)', 'positive semi-definiteness of the rbf/seard/rq/matern leaf families is a hypothesis (LeafPSD)',
+           'textbook closed forms of the Matérn covariance for ν = 1/2, 3/2, 5/2 (Hand.Kernel.maternClosed, GPML eq. 4.17) as oracle of the Matérn leaf']
 ASSUMPTIONS = ['theorems are by structural induction over kernel trees whose leaves satisfy the leaf lemma; defective leaves have counterexample theorems']
 N_GEN = {'quick': 0, 'thorough': 0}
+# cases of tools/c16_validate.py: a rotation leaf / op(leaf, leaf) (all 98 combinations, unequal parameter counts first) /
+# depth-2 shapes / random trees, 16 op lines each (+ 4 difference-quotient lines per parameter)
+N_CASES = {'quick': 320, 'thorough': 2500}
 
 
 def gen_ops(man):
@@ -15,7 +19,7 @@ def gen_ops(man):
 
 
 def extra_run(man, tier, seed):
-    n = 120 if tier == 'quick' else 2500
+    n = N_CASES['quick' if tier == 'quick' else 'thorough']
     script = os.path.join(core.ROOT, 'tools', 'c16_validate.py')
     with tempfile.NamedTemporaryFile(suffix='.json', dir=os.path.join(core.ROOT, 'evidence'), delete=False) as tf:
         jpath = tf.name
@@ -24,7 +28,8 @@ def extra_run(man, tier, seed):
     try:
         d = json.load(open(jpath))
     except Exception:
-        d = {'cases': 0, 'mismatches': [{'line': p.stderr[-300:]}], 'defects': {}, 'stats': {}}
+        d = {'cases': 0, 'mismatches': [{'line': '', 'impl': '', 'model': '', 'tag': 'script', 'diff': p.stderr[-300:]}], 'findings': [],
+             'combinator': [], 'stats': {}}
     finally:
         try:
             os.remove(jpath)
@@ -32,24 +37,31 @@ def extra_run(man, tier, seed):
             pass
     mism = d['mismatches']
     obligations = [{'name': 'corr:Kernel(hand model)', 'kind': 'corr', 'ok': not mism and d['cases'] > 0, 'site': 'Kernel',
-                    'detail': (json.dumps(mism[0])[:500] if mism else ''), 'cases': [{'line': m.get('line', '')[:300], 'impl': m.get('impl', '')[:100], 'model': m.get('model', '')[:100]} for m in mism[:3]]}]
+                    'detail': (json.dumps({k: str(v)[:160] for k, v in mism[0].items()})[:700] if mism else ''),
+                    'cases': [{'line': m.get('line', ''), 'impl': m.get('impl', '')[:200], 'model': m.get('model', '')[:200]} for m in mism[:3]]}]
     failures = []
-    for key, wit in sorted(d['defects'].items()):
-        check, kind, level = [x.strip() for x in key.split('|')]
-        if level != 'leaf':
+    # a disagreement model / implementation IS a concrete failing input (one op line both programs understand): report the
+    # shortest one per operation as a failure of site `Kernel.<op tag>` (so the broken correspondence obligation above is
+    # reported with its replay and not as "no failing input")
+    seen = set()
+    prio = {'roundtrip': 0, 'cov': 1, 'covXX': 1, 'cwg': 2, 'diag': 3, 'rep_eq': 4}
+    for m in sorted(mism, key=lambda m: prio.get(m.get('tag'), 9)):          # within a tag: shortest line first
+        tag = m.get('tag', '?')
+        if tag in seen or len(seen) >= 4:
             continue
-        failures.append({'site': f'{kind}', 'case': (wit[0] if wit else '')[:700], 'impl': '', 'expected': f'no `{check}`', 'observed': check,
-                         'detail': check})
-    m = re.search(r'^  counts: (\{.*\})\s*$', p.stdout, re.M)
-    if m:
-        try:
-            cnt = ast.literal_eval(m.group(1))
-        except Exception:
-            cnt = {'unparsed': 1}
-        for check, c in cnt.items():
-            w = re.search(rf'^  {re.escape(check)}: (.*)$', p.stdout, re.M)
-            failures.append({'site': 'combinator', 'case': (w.group(1) if w else '')[:700], 'impl': '', 'expected': f'no `{check}` on trees of good leaves',
-                             'observed': check, 'detail': f'{c} trees'})
+        seen.add(tag)
+        failures.append({'site': f'Kernel.{tag}', 'case': m.get('line', ''), 'impl': m.get('impl', '')[:400],
+                         'expected': ('hand model: ' + m.get('model', '')[:400]), 'observed': 'model ≠ implementation',
+                         'detail': f"{m.get('diff', '')[:200]} (leaf kinds {m.get('kinds')})"})
+    # self-consistency of the implementation, leaf kinds alone: site = leaf kind, observed = the check
+    for f in d.get('findings', []):
+        failures.append({'site': f['kind'], 'case': f['line'], 'impl': f.get('note', '')[:300], 'expected': f"no `{f['check']}`",
+                         'observed': f['check'], 'detail': f"{f['check']} ({f.get('count', 1)} cases): {f.get('note', '')[:300]}"})
+    # ... and on trees none of whose leaves is documented to fail a related check alone: site `combinator`
+    for f in d.get('combinator', []):
+        failures.append({'site': 'combinator', 'case': f['line'], 'impl': f.get('note', '')[:300],
+                         'expected': f"no `{f['check']}` on trees of good leaves", 'observed': f['check'],
+                         'detail': f"{f.get('count', 1)} trees: {f.get('note', '')[:300]}"})
     lines = int(d.get('stats', {}).get('lines', 0))
     return {'obligations': obligations, 'failures': failures, 'stats': {'evaluations': lines, 'distinct_nontrivial': lines, 'trees': d['cases']},
             'samples': [l for l in p.stdout.split('\n')[:2]]}
